@@ -37,9 +37,14 @@ type c03Case struct {
 	Binding string   `json:"binding"`
 	Seq     []string `json:"seq"`
 	Depth   int      `json:"depth,omitempty"` // job mode: enumerate all sequences of this length
+	Kinds   []string `json:"kinds,omitempty"`
 }
 
 var c03Kinds = []string{"correctV", "noV", "wrongV", "crossV", "short42", "long129", "badchar"}
+
+// extended alphabet: the same attempts with unusual grant_type spellings (a token request is a
+// token request however its grant_type list is written)
+var c03KindsExt = append(append([]string(nil), c03Kinds...), "noV/gt=extra", "noV/gt=dup", "wrongV/gt=extra", "noV/gt=case")
 var c03Bindings = []string{"S256", "plain", "omitted", "none", "plain-short", "plain-bad", "unknown-method"}
 
 // binding -> (challenge, method param, effective method)
@@ -61,7 +66,22 @@ func c03Binding(b string) (challenge, method, eff string) {
 	return "", "", ""
 }
 
+func c03GrantType(kind string) (string, string) {
+	if i := strings.Index(kind, "/gt="); i >= 0 {
+		switch kind[i+4:] {
+		case "extra":
+			return kind[:i], "authorization_code x"
+		case "dup":
+			return kind[:i], "authorization_code authorization_code"
+		case "case":
+			return kind[:i], "Authorization_Code"
+		}
+	}
+	return kind, "authorization_code"
+}
+
 func c03Verifier(binding, kind string) (string, bool) {
+	kind, _ = c03GrantType(kind)
 	challenge, _, eff := c03Binding(binding)
 	correct := pkceV0
 	cross := challenge
@@ -177,7 +197,8 @@ func c03RunSeq(c c03Case, res *WRes) (outcomes []string) {
 	failedBefore := false
 	for i, kind := range c.Seq {
 		v, sent := c03Verifier(c.Binding, kind)
-		form := url.Values{"grant_type": {"authorization_code"}, "code": {code}, "redirect_uri": {"https://" + c.Client + ".example/cb"}}
+		_, gt := c03GrantType(kind)
+		form := url.Values{"grant_type": {gt}, "code": {code}, "redirect_uri": {"https://" + c.Client + ".example/cb"}}
 		if sent {
 			form.Set("code_verifier", v)
 		}
@@ -223,13 +244,18 @@ func c03Job(arg json.RawMessage) (any, error) {
 	res := &WRes{}
 	// enumerate all sequences of exactly Depth attempts (every shorter one is a prefix), shortest-first
 	// effect: iterate lengths 1..Depth so that the first counterexample is the shortest.
+	kinds := c.Kinds
+	if len(kinds) == 0 {
+		kinds = c03Kinds
+	}
+	c.Kinds = nil
 	donePrefix := map[string]bool{} // prefixes that ended in issuance: extensions are not distinct histories
 	for L := 1; L <= c.Depth; L++ {
 		idx := make([]int, L)
 		for {
 			seq := make([]string, L)
 			for i, k := range idx {
-				seq[i] = c03Kinds[k]
+				seq[i] = kinds[k]
 			}
 			skip := false
 			for p := 1; p < L; p++ {
@@ -265,7 +291,7 @@ func c03Job(arg json.RawMessage) (any, error) {
 			j := L - 1
 			for j >= 0 {
 				idx[j]++
-				if idx[j] < len(c03Kinds) {
+				if idx[j] < len(kinds) {
 					break
 				}
 				idx[j] = 0
@@ -302,12 +328,13 @@ func init() {
 					for _, fl := range []string{"code", "hybrid"} {
 						for _, b := range c03Bindings {
 							jobs = append(jobs, c03Case{Enforce: enf, Plain: plain, Client: cl, Flow: fl, Binding: b, Depth: depth})
+							jobs = append(jobs, c03Case{Enforce: enf, Plain: plain, Client: cl, Flow: fl, Binding: b, Depth: depth - 1, Kinds: c03KindsExt})
 						}
 					}
 				}
 			}
 		}
-		r.Bounds = map[string]any{"attempt_sequence_depth": depth, "attempt_kinds": c03Kinds, "bindings": c03Bindings,
+		r.Bounds = map[string]any{"attempt_sequence_depth": depth, "attempt_kinds": c03Kinds, "extended_kinds_to_depth": depth - 1, "extended_kinds": c03KindsExt, "bindings": c03Bindings,
 			"enforcement": []string{"off", "public", "all"}, "plain": []bool{false, true}, "clients": []string{"P(public)", "A(confidential)"}, "flows": []string{"code", "hybrid"}}
 		r.Rule = "every sequence of <=depth redemption attempts (7 kinds) on one code, for every enforcement x plain x client x flow x binding; a case is one executed history; distinct non-trivial = distinct (config, sequence, outcome vector) where a code was issued"
 		r.Assumptions = []string{"reference predicate: tokens may be issued only for a well-formed verifier transforming to the bound challenge under the bound method (or no challenge and no applicable enforcement)",
